@@ -39,10 +39,18 @@ fn c11_thunk_reaches_target() {
     let w0 = c11_word(&buf, 0);
     let w1 = c11_word(&buf, 1);
     let w2 = c11_word(&buf, 2);
-    let adrp = c11_adrp(w0, t);
     kani::cover!(pages < 0, "target below the thunk");
     kani::cover!(pages == (1 << 20) - 1, "farthest forward page");
-    assert!(adrp.is_some(), "C11 thunk starts with ADRP");
+    // A thunk may take any form that transfers control to the target.  Two forms are decoded: a direct
+    // `B target` (C6.2.26: 000101 imm26, target = PC + SignExtend(imm26:00)) and `ADRP; ADD; BR`.
+    if w0 & 0xfc00_0000 == 0x1400_0000 {
+        let imm26 = (w0 & 0x03ff_ffff) as u64;
+        let off = if imm26 & (1 << 25) != 0 { (imm26 | !((1u64 << 26) - 1)) << 2 } else { imm26 << 2 };
+        assert!(t.wrapping_add(off) == target, "C11 thunk branches to exactly the target address");
+        return;
+    }
+    let adrp = c11_adrp(w0, t);
+    assert!(adrp.is_some(), "C11 thunk is a direct branch or starts with ADRP");
     let (rd, page) = adrp.unwrap();
     // ADD (immediate), 64-bit, sh = 0: 1 0 0 100010 0 imm12 Rn Rd
     assert!(w1 & 0xffc0_0000 == 0x9100_0000, "C11 thunk second instruction is ADD (immediate)");
